@@ -148,7 +148,8 @@ def run(chk, tier):
     chk.traces += out["compared"]
     chk.sample({"tlc_case": cases[0]})
     chk.extra["rowsem17"] = {"cases": out["compared"], "classes": len(out["classes"])}
-    can = _vh(["rowsem17", "--sys", o("c09_sys.ndjson"), "--cases", o("c09_cases17.ndjson"), "--corrupt", 7])
+    k = next(i for i, c in enumerate(cases) if c["sid"] == 1 and c["kind"] == "none")
+    can = _vh(["rowsem17", "--sys", o("c09_sys.ndjson"), "--cases", o("c09_cases17.ndjson"), "--corrupt", k])
     chk.canary("a case whose trace differs from the one TLC evaluated is reported by the evaluator comparison", len(can["mismatches"]) == 1)
     if thorough:
         for name in ("StarkAlgebra F17 N=4 all traces over {0,1,2}", "StarkAlgebra F97 N=8 corruptions"):
